@@ -49,6 +49,10 @@ func snapshotIDs(ml *logging.MemLogger) (ids []int, ok bool) {
 			ok = false
 			continue
 		}
+		// the fields written with an entry stay with that entry
+		if len(e.Context) != 1 || e.Context[0].Key != "id" || e.Context[0].Integer != int64(n) {
+			ok = false
+		}
 		ids = append(ids, n)
 	}
 	if ids == nil {
@@ -91,7 +95,7 @@ func RunLogRing(w *tr.Writer, st *LStats, tid int, h LHist) {
 			res := Guard(func() string {
 				for i := 0; i < op.N; i++ {
 					next++
-					if err := c.Write(zapcore.Entry{Message: strconv.Itoa(next), Level: zapcore.InfoLevel}, nil); err != nil {
+					if err := c.Write(zapcore.Entry{Message: strconv.Itoa(next), Level: zapcore.InfoLevel}, []zapcore.Field{zap.Int("id", next)}); err != nil {
 						return "err"
 					}
 				}
